@@ -491,7 +491,7 @@ func genC06(g *Gen, tier string, idx int) *wire.Scenario {
 			}
 			probe = append(probe, tok(seq, cmd))
 			if argCommands[cmd] {
-				probe = append(probe, tok(string(g.textRune(false)), "arg-key"))
+				probe = append(probe, tok(string(Pick(g, []rune("abcxyz ;,.019"))), "arg-key"))
 			}
 			at := g.N(len(rest) + 1)
 			if mode == "vi" && at == 0 && len(rest) > 0 && rest[0].Cmd == "vi-movement-mode" {
@@ -605,7 +605,7 @@ func execC06(x *Ctx, sc *wire.Scenario) *wire.Result {
 		}
 	}
 	// (c) movement purity, (b) returned line == buffer at acceptance
-	lastOp := ""
+	lastOp, prevCmd := "", ""
 	tainted := false // the previous token may have left a pending key prefix
 	// stale[i]: the wait right after incremental search was left, where the API still
 	// hands out the search minibuffer for one more command (not judged).
@@ -634,8 +634,11 @@ func execC06(x *Ctx, sc *wire.Scenario) *wire.Result {
 		wasTainted := tainted
 		tainted = amb || cmd == ""
 		if amb || cmd == "" || wasTainted {
+			prevCmd = ""
 			continue
 		}
+		prevOp := prevCmd
+		prevCmd = cmd
 		switch cmd {
 		case "vi-delete-to", "vi-change-to", "vi-yank-to", "vi-up-case", "vi-down-case", "vi-change-case":
 			if before.Local == "" {
@@ -660,7 +663,8 @@ func execC06(x *Ctx, sc *wire.Scenario) *wire.Result {
 		if after == nil || !movementCmds[cmd] {
 			continue
 		}
-		pureCtx := before.Local == "" || before.Local == "vi-visual" || (before.Local == "vi-opp" && lastOp == "vi-yank-to")
+		// operator-pending: only judged when the token right before was the yank operator itself
+		pureCtx := before.Local == "" || before.Local == "vi-visual" || (before.Local == "vi-opp" && prevOp == "vi-yank-to" && lastOp == "vi-yank-to")
 		if !pureCtx || after.Local == "isearch" || after.Local == "menu-select" {
 			continue
 		}
